@@ -109,13 +109,18 @@ harness(void) {
   VP_ASSERT(snappy_decode_size(&ulen, out, len) == 1, "decode_size accepts the encoder output");
   VP_ASSERT(ulen == VP_N, "decode_size == original length");
 
+  /* VP_PART (optional): 1 = lcdb decoder only, 2 = reference decoder only */
+#if !defined(VP_PART) || VP_PART == 1
   VP_ASSERT(snappy_decode(dec, out, len) == 1, "decode accepts the encoder output");
   for (i = 0; i < VP_N; i++)
     VP_ASSERT(dec[i] == x[i], "decode(encode(x)) == x");
-
+#endif
+#if !defined(VP_PART) || VP_PART == 2
   VP_ASSERT(vp_ref_snappy_decode(rdec, VP_N, out, len) == 1, "reference Snappy decoder accepts the encoder output");
   for (i = 0; i < VP_N; i++)
     VP_ASSERT(rdec[i] == x[i], "reference decoder reads x back");
+#endif
+  (void)dec; (void)rdec;
 #if VP_N >= 17
   if (len < VP_N)
     VP_WITNESS("input actually compressed");
